@@ -157,7 +157,8 @@ class NVSubroutineTranspiler(SubroutineTranspiler):
                 if isinstance(op, Register):
                     self._used_registers.update([op])
 
-            index_changes[i] = len(new_commands)
+            # DebugInstructions are not part of the serialized subroutine
+            index_changes[i] = self._count_real_instrs(new_commands)
 
             if isinstance(instr, core.SingleQubitInstruction) or isinstance(
                 instr, core.RotationInstruction
@@ -182,7 +183,7 @@ class NVSubroutineTranspiler(SubroutineTranspiler):
                     # Since this label is now removed, we should put a "no-op"
                     # instruction there so there is something to jump to.
                     add_no_op_at_end = True
-                    instr.line = Immediate(len(new_commands))
+                    instr.line = Immediate(self._count_real_instrs(new_commands))
                 else:
                     instr.line = Immediate(index_changes[instr.line.value])
 
@@ -195,6 +196,10 @@ class NVSubroutineTranspiler(SubroutineTranspiler):
 
         self._subroutine.instructions = new_commands
         return self._subroutine
+
+    @staticmethod
+    def _count_real_instrs(instrs: List[NetQASMInstruction]) -> int:
+        return sum(1 for instr in instrs if not isinstance(instr, DebugInstruction))
 
     def _move_electron_carbon(
         self, instr: vanilla.MovInstruction
